@@ -131,7 +131,15 @@ pub fn counts_in_scope(text: &str) -> bool {
 
 pub fn mutate(base: &str, rng: &mut Rng) -> (String, &'static str) {
     let mut cs: Vec<char> = base.chars().collect();
-    let kind = match rng.below(10) {
+    let kind = match rng.below(11) {
+        10 => {
+            // a literal whose body mixes plain, non-ASCII and escaped characters, some escapes
+            // well-formed for the meta-grammar but denoting no character
+            let i = rng.below(cs.len() + 1);
+            let lit: Vec<char> = escape_literal(rng).chars().collect();
+            cs.splice(i..i, lit);
+            "escape_literal"
+        }
         9 => {
             // something in front of everything (byte-order mark, blank lines, a CRLF doc line)
             let pre: Vec<char> = rng.pick(&["\u{feff}", "\u{feff}", "\n\n", "\r\n", "//! d\r\n", "\u{feff}//! d\n", " "]).chars().collect();
@@ -213,6 +221,30 @@ pub fn mutate(base: &str, rng: &mut Rng) -> (String, &'static str) {
     (cs.into_iter().collect(), kind)
 }
 
+/// A string, case-insensitive string, character or range literal with a mixed body.
+pub fn escape_literal(rng: &mut Rng) -> String {
+    const PLAIN: &[&str] = &["a", "b", "Z", "0", " ", "é", "ß", "→", "字", "😀", "\u{feff}", "e\u{301}"];
+    const GOOD: &[&str] = &["\\n", "\\t", "\\\\", "\\\"", "\\'", "\\0", "\\x41", "\\x7f", "\\u{41}", "\\u{e9}", "\\u{1F600}", "\\u{10FFFF}", "\\u{00D7FF}", "\\u{E000}"];
+    const BAD: &[&str] = &["\\u{D800}", "\\u{DFFF}", "\\u{DBFF}", "\\u{110000}", "\\u{FFFFFF}", "\\u{00D800}"];
+    let piece = |rng: &mut Rng, bad_ok: bool| -> String {
+        match rng.weighted(&[5, 3, if bad_ok { 2 } else { 0 }]) {
+            0 => rng.pick(PLAIN).to_string(),
+            1 => rng.pick(GOOD).to_string(),
+            _ => rng.pick(BAD).to_string(),
+        }
+    };
+    let body = |rng: &mut Rng| -> String {
+        let n = 1 + rng.below(5);
+        (0..n).map(|_| piece(rng, true)).collect()
+    };
+    match rng.below(5) {
+        0 | 1 => format!("\"{}\"", body(rng)),
+        2 => format!("^\"{}\"", body(rng)),
+        3 => format!("'{}'", piece(rng, true)),
+        _ => format!("'{}'..'{}'", piece(rng, true), piece(rng, true)),
+    }
+}
+
 pub fn cut(text: &str, rng: &mut Rng) -> String {
     if text.len() <= MAX_LEN {
         return text.to_string();
@@ -270,8 +302,12 @@ pub fn gen_text(r: &mut Rng, i: u64, files: &[(String, String)], cfg: &GenCfg) -
                 let n = 1 + r.below(14);
                 let mut s = String::new();
                 for _ in 0..n {
-                    let tok: &str = if r.chance(1, 12) { *r.pick(BIGNUMS) } else { *r.pick(TOKENS) };
-                    s.push_str(tok);
+                    if r.chance(1, 10) {
+                        s.push_str(&escape_literal(r));
+                    } else {
+                        let tok: &str = if r.chance(1, 12) { *r.pick(BIGNUMS) } else { *r.pick(TOKENS) };
+                        s.push_str(tok);
+                    }
                     if r.chance(1, 2) {
                         s.push(' ');
                     }
